@@ -1,7 +1,11 @@
 package main
 
 import (
+	"encoding/json"
 	"fmt"
+	"os"
+	"os/exec"
+	"path/filepath"
 	"strings"
 
 	"github.com/rillig/pkglint/v23/pkgver"
@@ -59,13 +63,12 @@ type c12Pair struct{ a, b string }
 func c12CheckPairs(ctx *Ctx, res *Result, pairs []c12Pair, kind string) {
 	reqs := make([]string, len(pairs))
 	impl := make([]int, len(pairs))
-	parallelFor(16, func(w int) {
-		for i := w; i < len(pairs); i += 16 {
-			p := pairs[i]
-			reqs[i] = "cmp " + hx(p.a) + " " + hx(p.b)
-			impl[i] = sgn(pkgver.Compare(p.a, p.b))
-		}
-	})
+	// sequential on purpose: pkglint is single-threaded, so an implementation that is a function of its
+	// arguments but not safe for concurrent use (e.g. a correct unsynchronised memo table) is not a violation
+	for i, p := range pairs {
+		reqs[i] = "cmp " + hx(p.a) + " " + hx(p.b)
+		impl[i] = sgn(pkgver.Compare(p.a, p.b))
+	}
 	ans, err := runOracle(ctx, "c12", reqs)
 	if err != nil {
 		res.Broken = err.Error()
@@ -106,12 +109,12 @@ func c12CheckPairs(ctx *Ctx, res *Result, pairs []c12Pair, kind string) {
 func c12Axioms(res *Result, strs []string) {
 	n := len(strs)
 	cmp := make([][]int8, n)
-	parallelFor(n, func(i int) {
+	for i := 0; i < n; i++ { // sequential, see c12CheckPairs
 		cmp[i] = make([]int8, n)
 		for j := 0; j < n; j++ {
 			cmp[i][j] = int8(sgn(pkgver.Compare(strs[i], strs[j])))
 		}
-	})
+	}
 	for i := 0; i < n; i++ {
 		if cmp[i][i] != 0 {
 			res.AddViolation(Violation{Key: "C12/axiom/refl", What: fmt.Sprintf("Compare(%q,%q)!=0", strs[i], strs[i]), FoundInput: true,
@@ -195,6 +198,328 @@ func c12Random(rng *Rng, n int) []c12Pair {
 	return pairs
 }
 
+
+// ---------- purity over call histories ----------
+//
+// The model's compare is a function; the implementation must be one too: the result of a call
+// must not depend on the calls made before it in the same process. One long call sequence is
+// evaluated strictly sequentially at the very start of the run (the process is fresh, nothing
+// has called pkgver.Compare yet): adversarial groups first (all splits a'+b' of one concatenation
+// a+b, forwards then backwards, each followed by the swapped pair), then the whole exhaustive pair
+// domain in two different seeded permutations. Every single result must equal the oracle's.
+// A disagreement is re-executed in fresh child processes (this binary, "replay" mode) and the
+// prefix is shrunk (ddmin) to the shortest call sequence that still makes the last call wrong.
+
+const c12HistoryKey = "C12/history/result-depends-on-earlier-calls"
+
+func c12EvalSeq(calls []c12Pair) []int8 {
+	out := make([]int8, len(calls))
+	for i, p := range calls {
+		out[i] = int8(sgn(pkgver.Compare(p.a, p.b)))
+	}
+	return out
+}
+
+// c12Want asks the oracle: per call the expected sign (dewey inside its range, the model outside) and the in-range flag.
+func c12Want(ctx *Ctx, calls []c12Pair) ([]int8, []bool, error) {
+	idx := map[c12Pair]int{}
+	var reqs []string
+	for _, p := range calls {
+		if _, ok := idx[p]; !ok {
+			idx[p] = len(reqs)
+			reqs = append(reqs, "cmp "+hx(p.a)+" "+hx(p.b))
+		}
+	}
+	ans, err := runOracle(ctx, "c12", reqs)
+	if err != nil {
+		return nil, nil, err
+	}
+	want := make([]int8, len(calls))
+	inr := make([]bool, len(calls))
+	for i, p := range calls {
+		var m, d, r int
+		if n, _ := fmt.Sscan(ans[idx[p]], &m, &d, &r); n != 3 {
+			return nil, nil, fmt.Errorf("oracle answer %q", ans[idx[p]])
+		}
+		if r == 1 {
+			want[i], inr[i] = int8(d), true
+		} else {
+			want[i] = int8(m)
+		}
+	}
+	return want, inr, nil
+}
+
+func c12Perm(rng *Rng, pairs []c12Pair) []c12Pair {
+	out := append([]c12Pair(nil), pairs...)
+	for i := len(out) - 1; i > 0; i-- {
+		j := rng.Intn(i + 1)
+		out[i], out[j] = out[j], out[i]
+	}
+	return out
+}
+
+// c12SplitGroup: every split of s into (s[:k], s[k:]), k = 0..len(s), each followed by the swapped pair.
+func c12SplitGroup(s string, backwards bool) []c12Pair {
+	var g []c12Pair
+	for k := 0; k <= len(s); k++ {
+		j := k
+		if backwards {
+			j = len(s) - k
+		}
+		g = append(g, c12Pair{s[:j], s[j:]}, c12Pair{s[j:], s[:j]})
+	}
+	return g
+}
+
+func c12CallsJSON(calls []c12Pair) []any {
+	out := make([]any, len(calls))
+	for i, p := range calls {
+		out[i] = []any{hx(p.a), hx(p.b)}
+	}
+	return out
+}
+
+// c12FreshLastWrong runs the call sequence in a fresh process and says whether its LAST call
+// returns something else than want. ok=false: the child could not be run at all.
+func c12FreshLastWrong(ctx *Ctx, calls []c12Pair, want int8, n *int) (wrong bool, got int, ok bool) {
+	*n++
+	dir := ctx.Work
+	if dir == "" {
+		dir = os.TempDir()
+	}
+	in := filepath.Join(dir, fmt.Sprintf("c12hist-%d-%d.json", os.Getpid(), *n))
+	out := in + ".out"
+	defer os.Remove(in)
+	defer os.Remove(out)
+	data, _ := json.Marshal(map[string]any{"kind": "history", "calls": c12CallsJSON(calls), "only_last": true, "want_last": int(want)})
+	if err := os.WriteFile(in, data, 0o644); err != nil {
+		return false, 0, false
+	}
+	exe, err := os.Executable()
+	if err != nil {
+		return false, 0, false
+	}
+	cmd := exec.Command(exe, "replay", "C12", "tier=quick", fmt.Sprintf("seed=%d", ctx.Seed), "oracle="+ctx.Oracle, "work="+dir, "replay="+in, "out="+out)
+	if b, err := cmd.CombinedOutput(); err != nil {
+		// the child died inside the code under test: as wrong as a wrong answer, but not a usable reduction step
+		_ = b
+		return false, 0, false
+	}
+	var r struct {
+		Distribution map[string]any `json:"distribution"`
+	}
+	rd, err := os.ReadFile(out)
+	if err != nil || json.Unmarshal(rd, &r) != nil {
+		return false, 0, false
+	}
+	g, has := r.Distribution["history_last_result"].(float64)
+	if !has {
+		return false, 0, false
+	}
+	return int8(g) != want, int(g), true
+}
+
+// c12Shrink: ddmin over the prefix (everything before the failing call), re-executing in fresh processes.
+func c12Shrink(ctx *Ctx, prefix []c12Pair, target c12Pair, want int8, budget int) (best []c12Pair, runs int, reproduced bool) {
+	test := func(pre []c12Pair) bool {
+		if runs >= budget {
+			return false
+		}
+		w, _, ok := c12FreshLastWrong(ctx, append(append([]c12Pair(nil), pre...), target), want, &runs)
+		return ok && w
+	}
+	if !test(prefix) {
+		return prefix, runs, false
+	}
+	seq := prefix
+	n := 2
+	for len(seq) >= 2 && runs < budget {
+		sz := (len(seq) + n - 1) / n
+		reduced := false
+		for lo := 0; lo < len(seq); lo += sz {
+			hi := lo + sz
+			if hi > len(seq) {
+				hi = len(seq)
+			}
+			if test(seq[lo:hi]) {
+				seq, n, reduced = append([]c12Pair(nil), seq[lo:hi]...), 2, true
+				break
+			}
+		}
+		if !reduced && n > 2 {
+			for lo := 0; lo < len(seq); lo += sz {
+				hi := lo + sz
+				if hi > len(seq) {
+					hi = len(seq)
+				}
+				compl := append(append([]c12Pair(nil), seq[:lo]...), seq[hi:]...)
+				if test(compl) {
+					seq, reduced = compl, true
+					if n > 2 {
+						n--
+					}
+					break
+				}
+			}
+		}
+		if !reduced {
+			if n >= len(seq) {
+				break
+			}
+			n *= 2
+			if n > len(seq) {
+				n = len(seq)
+			}
+		}
+	}
+	return seq, runs, true
+}
+
+// c12ReportHistory turns "call i of the sequence is wrong" into a violation; the sequence is re-executed in
+// fresh processes (so the report does not depend on what this process did before) and shrunk.
+func c12ReportHistory(ctx *Ctx, res *Result, calls []c12Pair, i int, got, want int8, inRange bool) {
+	target := calls[i]
+	runs := 0
+	aloneWrong, aloneGot, aloneOK := c12FreshLastWrong(ctx, []c12Pair{target}, want, &runs)
+	if aloneOK && aloneWrong {
+		// wrong even as the first call of a fresh process: an ordinary wrong pair, no history needed
+		key, found := "C12/differs-from-dewey", true
+		rep := map[string]any{"kind": "pair", "a": hx(target.a), "b": hx(target.b), "impl": aloneGot, "dewey": int(want)}
+		if !inRange {
+			key, found = "C12/correspondence/compare-pairs", false
+			rep["broken"] = "correspondence pkgver.Compare = Model.Vercmp.compare_sign"
+		}
+		res.AddViolation(Violation{Key: key, What: fmt.Sprintf("Compare(%q,%q)=%d but the oracle gives %d (first call of a fresh process)", target.a, target.b, aloneGot, want),
+			FoundInput: found, Size: 1 + len(target.a) + len(target.b), Replay: rep})
+		return
+	}
+	pre, sruns, reproduced := c12Shrink(ctx, calls[:i], target, want, 400)
+	runs += sruns
+	seq := append(append([]c12Pair(nil), pre...), target)
+	if !reproduced {
+		// wrong inside this process but right when the same calls are made in a fresh process
+		res.AddViolation(Violation{Key: c12HistoryKey + "/not-reproduced-in-fresh-process",
+			What:       fmt.Sprintf("call #%d of the sequential history, Compare(%q,%q), returned %d but the oracle gives %d; the same %d calls in a fresh process did not reproduce it", i, target.a, target.b, got, want, i+1),
+			FoundInput: false, Size: i + 1,
+			Replay: map[string]any{"kind": "pair", "a": hx(target.a), "b": hx(target.b), "impl": int(got), "want": int(want), "index": i,
+				"broken": "pkgver.Compare is a function of its arguments (results along one sequential call history = oracle)"}})
+		return
+	}
+	var sb strings.Builder
+	for k, p := range seq {
+		if k > 0 {
+			sb.WriteString("; ")
+		}
+		if k >= 6 && k < len(seq)-1 {
+			if k == 6 {
+				fmt.Fprintf(&sb, "… %d more calls …", len(seq)-7)
+			}
+			continue
+		}
+		fmt.Fprintf(&sb, "Compare(%q,%q)", p.a, p.b)
+	}
+	v := Violation{Key: c12HistoryKey,
+		What: fmt.Sprintf("the result of Compare depends on earlier calls: in a fresh process the %d call(s) %s make the last one return %d; dewey.c (and the same call alone in a fresh process) gives %d",
+			len(seq), sb.String(), c12LastGot(ctx, seq, want), want),
+		FoundInput: inRange, Size: len(seq),
+		Replay: map[string]any{"kind": "history", "calls": c12CallsJSON(seq), "want_last": int(want), "alone": aloneGot, "fresh_process_runs": runs, "index_in_run": i}}
+	if !inRange {
+		v.Replay["broken"] = "pkgver.Compare is a function of its arguments (outside dewey's range: = Model.Vercmp.compare_sign)"
+	}
+	res.AddViolation(v)
+}
+
+func c12LastGot(ctx *Ctx, seq []c12Pair, want int8) int {
+	n := 0
+	_, g, _ := c12FreshLastWrong(ctx, seq, want, &n)
+	return g
+}
+
+// c12Histories: returns false if the run should stop (a history violation was reported or the machinery failed).
+func c12Histories(ctx *Ctx, res *Result, rng *Rng, exh []c12Pair, random []c12Pair) bool {
+	var calls []c12Pair
+	// adversarial groups: concatenations of exhaustive pairs (sampled) and of random pairs, all splits
+	ngroups, nsplit := 0, 0
+	addGroup := func(s string) {
+		if len(s) < 2 || len(s) > 40 {
+			return
+		}
+		g := c12SplitGroup(s, false)
+		g = append(g, c12SplitGroup(s, true)...)
+		calls = append(calls, g...)
+		ngroups++
+		nsplit += len(g)
+	}
+	want1 := 3000
+	if ctx.Tier == "thorough" {
+		want1 = 30000
+	}
+	for k := 0; k < want1; k++ {
+		p := Pick(rng, exh)
+		addGroup(p.a + p.b)
+	}
+	for k := 0; k < want1/3 && k < len(random); k++ {
+		p := random[rng.Intn(len(random))]
+		addGroup(p.a + p.b)
+	}
+	// the exhaustive pair domain, twice, in two different orders
+	p1 := c12Perm(rng, exh)
+	p2 := c12Perm(rng, exh)
+	calls = append(calls, p1...)
+	calls = append(calls, p2...)
+	// generator floor (a property of the generator, not of the implementation): pairs that share their concatenation with a different pair
+	byCat := map[string]map[c12Pair]bool{}
+	for _, p := range exh {
+		k := p.a + p.b
+		if byCat[k] == nil {
+			byCat[k] = map[c12Pair]bool{}
+		}
+		byCat[k][p] = true
+	}
+	coll := 0
+	for _, m := range byCat {
+		if len(m) > 1 {
+			coll += len(m)
+		}
+	}
+	res.Count("history_calls", len(calls))
+	res.Count("history_split_groups", ngroups)
+	res.Count("history_split_calls", nsplit)
+	res.Count("history_exhaustive_pairs_sharing_a_concatenation", coll)
+	if coll < 1000 || ngroups < want1/2 {
+		res.Broken = fmt.Sprintf("C12 history generator: only %d exhaustive pairs share a concatenation, %d split groups", coll, ngroups)
+		return false
+	}
+	got := c12EvalSeq(calls) // strictly sequential, first use of pkgver.Compare in this process
+	want, inr, err := c12Want(ctx, calls)
+	if err != nil {
+		res.Broken = err.Error()
+		return false
+	}
+	res.Evaluations += len(calls)
+	// the same pair evaluated at several positions must give one result (independent of the oracle)
+	first := map[c12Pair]int{}
+	repeated := 0
+	for i, p := range calls {
+		if j, ok := first[p]; ok {
+			_ = j
+			repeated++
+		} else {
+			first[p] = i
+		}
+	}
+	res.Count("history_repeated_calls", repeated)
+	for i := range calls {
+		if got[i] != want[i] {
+			c12ReportHistory(ctx, res, calls, i, got[i], want[i], inr[i])
+			res.Count("history_first_wrong_index", i)
+			return false
+		}
+	}
+	return true
+}
+
 func runC12(ctx *Ctx) *Result {
 	res := &Result{Rule: "pairs: all pairs of strings of <=K tokens over the property's 19-token alphabet (exhaustive), then seeded random pairs of 3-8 tokens incl. long digit runs and arbitrary ASCII bytes; non-trivial = a pair containing at least one letter (keyword or letter component), distinct by (a,b); triples over the reduced alphabet {1,2,.,a,alpha,rc,nb} evaluate refl/antisym/trans on the implementation"}
 	rng := NewRng(ctx.Seed)
@@ -240,6 +565,12 @@ func runC12(ctx *Ctx) *Result {
 	res.DistinctNontrivial = len(seen)
 	res.Count("exhaustive_pairs", nexh)
 	res.Count("random_pairs", len(pairs)-nexh)
+	// purity over call histories: must come first (sequential, fresh process)
+	if !c12Histories(ctx, res, rng.Fork(), pairs[:len(strs)*len(strs)], pairs[nexh:]) {
+		res.Count("later_phases_skipped_after_history_violation", 1)
+		res.Assumptions = []string{"inputs are ASCII (strings.ToLower on non-ASCII is outside the model)"}
+		return res
+	}
 	c12CheckPairs(ctx, res, pairs, "pairs")
 	c12Axioms(res, tokenStrings(c12Reduced, redTok))
 	res.TracesValidated = len(pairs)
@@ -263,6 +594,44 @@ func replayC12(ctx *Ctx, rep map[string]any) *Result {
 	case "triple":
 		c, _ := rep["c"].(string)
 		c12Axioms(res, []string{unhx(a), unhx(b), unhx(c)})
+	case "history":
+		// this process is fresh: evaluate the calls in order
+		var calls []c12Pair
+		raw, _ := rep["calls"].([]any)
+		for _, x := range raw {
+			if ab, ok := x.([]any); ok && len(ab) == 2 {
+				sa, _ := ab[0].(string)
+				sb, _ := ab[1].(string)
+				calls = append(calls, c12Pair{unhx(sa), unhx(sb)})
+			}
+		}
+		if len(calls) == 0 {
+			res.Broken = "history replay without calls"
+			return res
+		}
+		got := c12EvalSeq(calls)
+		res.Evaluations = len(calls)
+		res.Count("history_last_result", int(got[len(got)-1]))
+		if only, _ := rep["only_last"].(bool); only {
+			return res
+		}
+		want, inr, err := c12Want(ctx, calls)
+		if err != nil {
+			res.Broken = err.Error()
+			return res
+		}
+		for i := range calls {
+			if got[i] != want[i] {
+				v := Violation{Key: c12HistoryKey, FoundInput: inr[i], Size: i + 1,
+					What:   fmt.Sprintf("call #%d of the replayed history, Compare(%q,%q), returns %d; the oracle gives %d", i+1, calls[i].a, calls[i].b, got[i], want[i]),
+					Replay: map[string]any{"kind": "history", "calls": c12CallsJSON(calls[:i+1]), "want_last": int(want[i])}}
+				if !inr[i] {
+					v.Replay["broken"] = "pkgver.Compare is a function of its arguments"
+				}
+				res.AddViolation(v)
+				break
+			}
+		}
 	}
 	return res
 }
